@@ -284,7 +284,7 @@ impl Part for Filters {
     const NAME: &'static str = "collection_filter_algebra";
 
     fn strategy(tier: Tier) -> BoxedStrategy<FilterCase> {
-        let max = tier.pick(30usize, 45);
+        let max = tier.pick(72usize, 160);
         (
             // few distinct keys so that duplicates are common
             prop::collection::vec(sortable_key(), 1..5),
